@@ -20,6 +20,7 @@ func init() {
 	register("C02", "model_checking", func(r *ev.Run) {
 		inCampaign(r, "C02")
 		liveInputLeg(r)
+		opInputLeg(r)
 	})
 	register("C11", "model_checking", func(r *ev.Run) {
 		inCampaign(r, "C11")
